@@ -36,7 +36,7 @@ def classify(component, what, case):
         return None
     if case.get("quirk") in QBITS.values():
         return case["quirk"]
-    if case.get("witness") in ("F57", "F58", "F60"):
+    if case.get("witness") in NOT_MIRRORED:
         return case["witness"]
     err = (case.get("stderr", "") or "") + " " + (what or "")
     if case.get("crash"):
@@ -72,6 +72,17 @@ def schema_line(i):
     return "%s %s schema %s %s" % (i, COMP, hexs(X.YANG_A), hexs(X.YANG_B))
 
 
+def live_mask(cx):
+    """switches of the engine that stand for a deviation still present in the implementation: findings with status `known`.
+    A repaired finding (status `fixed`) turns its switch off, so the engine demands the XPath 1.0 behaviour there again."""
+    m = 0
+    for bit, fid in QBITS.items():
+        f = cx.findings.get(fid)
+        if f is not None and f.get("status") == "known":
+            m |= 1 << bit
+    return m
+
+
 def run_groups(cx, groups, kind_tag):
     """groups: list of (xml, [(op, ctx, expr_ast, meta)]).  Sends everything through harness and model; returns list of
     (group index, item index, line, impl reply, model reply, dump)."""
@@ -96,7 +107,7 @@ def run_groups(cx, groups, kind_tag):
         for ii, (op, c, e, meta) in enumerate(items):
             txt = meta.get("text") or X.render(e)
             lid = "e%d_%d" % (gi, ii)
-            lines.append("%s %s %s %d %s %s %s" % (lid, COMP, op, c, hexs(txt), hexs(X.prefix(e)), dumps[gi]))
+            lines.append("%s %s %s %d %s %s %s %d" % (lid, COMP, op, c, hexs(txt), hexs(X.prefix(e)), dumps[gi], live_mask(cx)))
             index[lid] = (gi, ii)
     ri = run_impl_stateful(cx, lines)
     rm = cx.run_model(lines)
@@ -125,7 +136,7 @@ def run_impl_stateful(cx, lines):
     """The harness keeps the schema and the tree of the preceding `schema` / `tree` lines.  After a crash vcheck restarts it on
     the remaining lines, which then answer `err NoTree`: re-send those with their `schema` and `tree` lines in front."""
     res = cx.run_impl(HARNESS, lines, component=COMP)
-    for _ in range(50):
+    for _ in range(400):
         redo, cur_tree = [], None
         for l in lines:
             t = l.split()
@@ -147,36 +158,42 @@ def rec_law(cx, results):
     """(L) the implementation's result equals the XPath 1.0 result (engine with every switch off); differences are attributed."""
     need = []
     for (gi, ii, l, a, b, dump) in results:
-        if a != b or a[0] != "ok" and a[:2] != ["err", "ArgType"] and a[:2] != ["err", "InvalidOp"]:
-            continue
         t = l.split()
         if t[2] != "eval": continue
-        need.append((l, a))
-    lines = ["%s %s evalq 0 %s" % (l.split()[0], COMP, " ".join(l.split()[3:])) for (l, a) in need]
+        if a[0] != "ok" and a[:2] != ["err", "ArgType"] and a[:2] != ["err", "InvalidOp"]:
+            continue
+        need.append((l, a, a == b))
+    body = lambda l: " ".join(l.split()[3:7])
+    lines = ["%s %s evalq 0 %s" % (l.split()[0], COMP, body(l)) for (l, a, agree) in need]
     rm = cx.run_model(lines)
     diff = []
-    for (l, a) in need:
+    for (l, a, agree) in need:
         r = rm.get(l.split()[0], ["err", "NoReply"])
-        if ns_sorted(r) != ns_sorted(a) if False else r != a:
-            diff.append((l, a, r))
-    # attribution: which single switches, turned off in the all-on configuration, change the result / turned on alone, explain it
+        if r != a:
+            diff.append((l, a, r, agree))
+    # attribution: which single switches, turned off in the live configuration, change the result / turned on alone, explain it
+    live = live_mask(cx)
     lines2 = []
-    for n, (l, a, r) in enumerate(diff):
-        rest = " ".join(l.split()[3:])
+    for n, (l, a, r, agree) in enumerate(diff):
+        if not agree: continue
         for bit in QBITS:
-            lines2.append("a%d_%d %s evalq %d %s" % (n, bit, COMP, ALL & ~(1 << bit), rest))
+            if live >> bit & 1:
+                lines2.append("a%d_%d %s evalq %d %s" % (n, bit, COMP, live & ~(1 << bit), body(l)))
     ra = cx.run_model(lines2) if lines2 else {}
-    for n, (l, a, r) in enumerate(diff):
-        implicated = [bit for bit in QBITS if ra.get("a%d_%d" % (n, bit)) != a]
-        if not implicated:
-            # several deviations each suffice: those that alone already change the XPath 1.0 result
-            rest = " ".join(l.split()[3:])
-            rb = cx.run_model(["b%d %s evalq %d %s" % (bit, COMP, 1 << bit, rest) for bit in QBITS])
-            implicated = [bit for bit in QBITS if rb.get("b%d" % bit) != r]
+    for n, (l, a, r, agree) in enumerate(diff):
         t = l.split()
         case = {"line": shorten(l), "expr": unhex(t[4]).decode("utf-8", "replace"), "ctx": t[3], "impl": a, "xpath10": r}
+        if not agree:
+            # the engine with the recorded deviations does not reproduce this result either: a concrete failing input of the property
+            cx.fail(COMP, "result differs from XPath 1.0 and no recorded deviation explains it", case)
+            continue
+        implicated = [bit for bit in QBITS if live >> bit & 1 and ra.get("a%d_%d" % (n, bit)) != a]
         if not implicated:
-            cx.fail(COMP, "result differs from XPath 1.0 and no modelled deviation explains it", case)
+            # several deviations each suffice: those that alone already change the XPath 1.0 result
+            rb = cx.run_model(["b%d %s evalq %d %s" % (bit, COMP, 1 << bit, body(l)) for bit in QBITS if live >> bit & 1])
+            implicated = [bit for bit in QBITS if live >> bit & 1 and rb.get("b%d" % bit) != r]
+        if not implicated:
+            cx.fail(COMP, "result differs from XPath 1.0 and no recorded deviation explains it", case)
         for bit in implicated:
             cx.fail(COMP, "result differs from XPath 1.0 (%s)" % QBITS[bit], dict(case, quirk=QBITS[bit]))
     cx.dist["law:xpath10:checked"] += len(need)
@@ -236,6 +253,20 @@ def run(cx):
             if e[0] in ("path", "filter") or (e[0] == "bin" and e[1] == "union"):
                 if rng.random() < 0.3:
                     items.append(("find", c, e, {"text": X.render(e, rng)}))
+        # systematic part: every axis x node test x positional predicate from a few context nodes (and one more step behind it)
+        for c in sorted(set([0] + [rng.randrange(1, len(nodes) + 1) for _ in range(cx.n(2, 4))])) if nodes else []:
+            names = sorted({(n[1], n[2]) for n in nodes})
+            for axis in X.AXES_GEN:
+                mod, name = rng.choice(names)
+                for test in (X.STAR, X.NODE, ("n", mod if rng.random() < 0.5 or name in X.CONFLICT else None, name), ("m", rng.choice([X.A, X.B]))):
+                    for preds in ([], [X.num(1)], [X.fn("last")], [X.num(2)], [X.bop("gt", X.fn("position"), X.num(1))]):
+                        if preds and rng.random() < 0.5: continue
+                        steps = [X.st(test, axis, preds)]
+                        if rng.random() < 0.3:
+                            steps.append(X.st(rng.choice([X.STAR, ("n", None, "k"), X.NODE]), rng.choice(["parent", "self", "ancestor", "descendant", "following-sibling"])))
+                        e = X.relp(*steps)
+                        if rng.random() < 0.25: e = X.fn("count", e)
+                        items.append(("eval", c, e, {"text": X.render(e, rng)}))
         groups.append((xml, items))
     results, dumps = run_groups(cx, groups, "xpath")
     nodeset_law(cx, results)
@@ -246,7 +277,7 @@ def run(cx):
     set_ops(cx)
 
 
-NOT_MIRRORED = ("F57", "F58", "F60")
+NOT_MIRRORED = ("F57", "F58", "F60", "F62")
 
 
 def witnesses(cx):
